@@ -74,6 +74,13 @@ def hist_cases(rng, tier, family, ncfg, per_cfg, nops, weights=None, observe_all
                     lines.append('apply %d' % h)
                     lines.append('root %d' % h)
                     lines.append('tovec %d' % h)
+                    lines.append('wf %d' % h)
+                    c = g.sh.s[h]
+                    # a freshly built collection with (what the generator believes are) the same
+                    # contents: equality and root must agree with the plain-sequence oracle
+                    lines.append('new 90 %s %s' % ('list' if c['k'] == 'list' else 'vec', ' '.join(c['xs'])))
+                    lines.append('eq %d 90' % h)
+                    lines.append('root 90')
             c = Case(lines, family, preds, {'cfg': cfg, 'ops': dict(g.stats)})
             out.append(c)
     return out
@@ -1216,8 +1223,27 @@ def fam_C17(rng, tier):
     return out
 
 
+def common_core(rng, tier):
+    """a small shared pool run by every stateful property's check: motif-seeded histories with
+    well-formedness probes and random histories ending in flush / root / equality with a freshly
+    built copy. A change to the crate rarely respects the property boundaries."""
+    cs = motif_histories(rng, tier)
+    cs += hist_cases(rng, tier, 'core-history', scale(tier, 24, 100), 3, 40, final_roots=True, pzero=0.5,
+                     weights={'root': 8, 'rebase': 7, 'intra': 4, 'pop': 6, 'bulk': 6, 'itercow': 3, 'cow': 6},
+                     preds=('wellformed',))
+    return cs
+
+
+def _with_core(fam):
+    def f(rng, tier):
+        return fam(rng, tier) + common_core(rng, tier)
+    return f
+
+
 FAMILIES = {
     'C01': fam_C01, 'C02': fam_C02, 'C03': fam_C03, 'C04': fam_C04, 'C05': fam_C05, 'C06': fam_C06,
     'C07': fam_C07, 'C08': fam_C08, 'C09': fam_C09, 'C10': fam_C10, 'C11': fam_C11, 'C12': fam_C12,
     'C13': fam_C13, 'C14': fam_C14, 'C15': fam_C15, 'C16': fam_C16, 'C17': fam_C17,
 }
+for _p in ('C01', 'C02', 'C03', 'C04', 'C05', 'C06', 'C07', 'C08', 'C09', 'C10', 'C11', 'C15'):
+    FAMILIES[_p] = _with_core(FAMILIES[_p])
